@@ -4,7 +4,7 @@
    which of the two the correspondence check compares the real code with is the one-line switch
    [Corr_C10.today_len_check]).  The JSON decoder, the payload decoder and the HTTP transport are
    explicit oracles: every theorem holds for EVERY oracle function and every answer. *)
-From V Require Import Base IdToken IdToken_proofs CorrBase Corr_C10 Corr_C10_proofs.
+From V Require Import Base IdToken IdToken_proofs IdToken_b64_proofs CorrBase Corr_C10 Corr_C10_proofs.
 
 (* Soundness: if Redeem returns a session then the code was non-empty, the token endpoint answered
    200 with a JSON object carrying the session's tokens, the session's e-mail is non-empty and is
@@ -121,3 +121,21 @@ Theorem C10_monitor_accepts_model : forall lc prov cd tok ui tab errp later,
   (judge_lc lc (model_case lc prov cd tok ui tab errp later) = 101 /\ lc = false /\ k1_signature prov cd tok = true).
 Proof. exact judge_accepts_model. Qed.
 Print Assumptions C10_monitor_accepts_model.
+
+(* The model's base64 decoder (after Go's Encoding.Decode for base64.URLEncoding) is not an opaque
+   predicate: the RFC 4648 URL-safe encoding of ANY byte string, padded or unpadded (as JWTs are;
+   jwtDecodeSegment then pads it), decodes to that byte string. *)
+Theorem C10_segment_decodes_what_was_encoded : forall pad b,
+  is_bytes b -> jwt_decode_segment (b64url_encode pad b) = Some b.
+Proof. exact jwt_decode_segment_encode. Qed.
+Print Assumptions C10_segment_decodes_what_was_encoded.
+
+(* Liveness for well-formed tokens: header '.' base64url(payload) '.' signature, with a payload the
+   JSON decoder reads as a non-empty e-mail and email_verified = true, is accepted with exactly
+   that e-mail, whatever header (without '.') and signature are. *)
+Theorem C10_wellformed_token_accepted : forall lc oracle pad header payload sig email uf,
+  ~ In dot header -> is_bytes payload ->
+  oracle payload = Json uf -> f_email uf = JStr email -> email <> [] -> f_verified uf = JBool true ->
+  email_from_id_token lc oracle (header ++ dot :: b64url_encode pad payload ++ dot :: sig) = EOk email.
+Proof. exact google_accepts_wellformed. Qed.
+Print Assumptions C10_wellformed_token_accepted.
